@@ -35,27 +35,28 @@ Theorem C18_attr_absent : forall st ps k,
 Proof. exact lookup_none. Qed.
 Print Assumptions C18_attr_absent.
 
-(* FULL STATEMENT for sensors: forall ps st n, tbl_get (sensor_table ps st) n = spec_sensor st ps n.
-   It is FALSE of the faithful model (known finding F6): *)
-Theorem C18_sensor_most_specific_refuted :
+(* Sensors: the table built by TelstateDataSource (after the repair of F6) reads sensor [n] from a key that
+   defines it in the MOST SPECIFIC namespace: the chosen key is a mutable key whose shortened name is n, owned by
+   the namespace of rank r, and no other namespace that defines n has a smaller rank; if no namespace defines it
+   the sensor is absent.  For every store (in any key order) and every prefix list. *)
+Theorem C18_sensor_most_specific : forall ps st n, n <> ""%string ->
+  match rtbl_get (sensor_table ps st) n with
+  | None => forall e, In e st -> owns ps n e = false
+  | Some (r, k) =>
+      (exists e, In e st /\ owns ps n e = true /\ e_key e = k /\ key_rank ps k = Some r) /\
+      (forall e, In e st -> owns ps n e = true -> exists r', key_rank ps (e_key e) = Some r' /\ (r <= r')%nat)
+  end.
+Proof. exact sensor_most_specific. Qed.
+Print Assumptions C18_sensor_most_specific.
+
+(* before the repair the LAST key in key order won, so a less specific namespace could win (F6, fixed):
+   the witness on which the old table and the new one differ *)
+Theorem C18_sensor_refuted_before_fix :
   exists ps st n, spec_sensor st ps n = Some "cb_base_foo"%string
-                  /\ tbl_get (sensor_table ps st) n = Some "cb_foo"%string.
-Proof. exact sensor_most_specific_refuted. Qed.
-Print Assumptions C18_sensor_most_specific_refuted.
-
-(* what the code does: the LAST mutable key, in key order, whose shortened name is n *)
-Theorem C18_sensor_table_last_owner : forall ps st n, n <> ""%string ->
-  tbl_get (sensor_table ps st) n = last_owner ps st n.
-Proof. exact sensor_table_last_owner. Qed.
-Print Assumptions C18_sensor_table_last_owner.
-
-(* partial: a sensor defined in one namespace only is always found *)
-Theorem C18_sensor_most_specific_partial : forall ps st n k, n <> ""%string ->
-  (forall e, In e st -> owns ps n e = true -> e_key e = k) ->
-  (exists e, In e st /\ owns ps n e = true) ->
-  tbl_get (sensor_table ps st) n = Some k.
-Proof. exact sensor_single_namespace. Qed.
-Print Assumptions C18_sensor_most_specific_partial.
+                  /\ tbl_get (sensor_table_unranked ps st) n = Some "cb_foo"%string
+                  /\ sensor_key ps st n = Some "cb_base_foo"%string.
+Proof. exact sensor_refuted_before_fix. Qed.
+Print Assumptions C18_sensor_refuted_before_fix.
 
 Theorem C18_id_precedence : forall kw url file,
   (forall k, kw = Some k -> k <> ""%string -> resolve_id kw url file = Some k) /\
